@@ -539,6 +539,61 @@ def builder_fn(src, which):
     return out
 
 
+def builder_write(src, which):
+    """MessageBuilder::{byte_len, build, write_into}: the size formula, the size guard, the order and offsets of the header
+    writes, the attribute loop with its running offset"""
+    txt = src.get(MSG)
+    imp = impl_body(txt, r"impl\s*<'a>\s*MessageBuilder<'a>\s*\{")
+    if imp is None:
+        raise XlateError("impl MessageBuilder not found")
+    common = [("self.attributes.iter().map(|attr| attr.padded_len()).sum()", "((b.attrs.map (fun attr => attr.paddedLen)).sum)"),
+              ("MessageHeader::LENGTH", "headerLength"), ("self.byte_len()", "(byteLen b)")]
+    if which == "byte_len":
+        body = fn_body(imp, r"pub\s+fn\s+byte_len\s*\(\s*&self\s*\)\s*->\s*usize\s*\{")
+        em = Emitter(exprs=common, ret="{v}", locals_=[])
+    elif which == "build":
+        body = fn_body(imp, r"pub\s+fn\s+build\s*\(\s*&self\s*\)\s*->\s*Vec<u8>\s*\{")
+        em = Emitter(exprs=common, lets=[("self.write_into(&mut ret)", "(writeInto b ret)",
+                                          "let ret := (match __v with | Except.ok __r => __r.2 | Except.error _ => ret);")],
+                     ret="{v}", locals_=[])
+    else:
+        body = fn_body(imp, r"pub\s+fn\s+write_into\s*\(\s*&self\s*,\s*dest\s*:\s*&mut\s*\[u8\]\s*\)\s*->\s*Result<usize,\s*StunWriteError>\s*\{")
+        mt = fn_body(impl_body(txt, r"impl\s+MessageType\s*\{") or "", r"pub\s+fn\s+write_into\s*\(\s*&self\s*,\s*dest\s*:\s*&mut\s*\[u8\]\s*\)\s*\{")
+        if mt is None or re.sub(r"\s+", "", mt) != "BigEndian::write_u16(dest,self.0);":
+            raise XlateError("MessageType::write_into shape")
+        exprs = common + [("dest.len()", "dest.length"), ("self.transaction_id.into()", "b.tid"), ("MAGIC_COOKIE", "magicCookie"),
+                          ("StunWriteError::TooSmall { expected: $a, actual: $b }", "(WErr.tooSmall $a $b)"), ("Err($x)", "(Except.error $x)"),
+                          ("Ok(offset)", "(Except.ok (offset, dest))")]
+        stmts = [("self.msg_type.write_into(&mut dest[..2])", ("dest", "(put dest 0 (enc16 b.ty))")),
+                 ("BigEndian::write_u128(&mut dest[4..20], $v)", ("dest", "(put dest 4 (encBE 16 $v))")),
+                 ("BigEndian::write_u16(&mut dest[2..4], $v)", ("dest", "(put dest 2 (enc16 $v))"))]
+        lets = [("attr.write_into(&mut dest[offset..])?", "(attr.writeInto (dest.drop offset))",
+                 "match __v with | Except.error __e => Except.error __e | Except.ok __r => let dest := dest.take offset ++ __r.2; let __v := __r.1;")]
+        out = {}
+        em = Emitter(exprs=exprs, stmts=stmts, lets=lets, ret="{v}", locals_=["dest"])
+
+        def on_for(stmt, rest):
+            from rustmini import parse_expr, match
+            _, pat, it, fbody = stmt
+            if pat != ("pbind", "attr") or not match(parse_expr("&self.attributes"), it, {}) or "offset" not in em.locals:
+                raise XlateError("write_into: loop header shape")
+            eb = Emitter(exprs=exprs, stmts=stmts, lets=lets, ret="{v}", locals_=list(em.locals) + ["attr"])
+            eb.on_end = eb.on_continue = "writeAttrsLoop __rest dest offset"
+            ea = Emitter(exprs=exprs, stmts=stmts, lets=lets, ret="{v}", locals_=list(em.locals))
+            out["loop"] = ("match __attrs with\n  | [] => " + ea.blk(list(rest)) + "\n  | attr :: __rest => " + eb.blk(list(fbody)))
+            return "writeAttrsLoop b.attrs dest offset"
+        em.on_for = on_for
+        if body is None:
+            raise XlateError("MessageBuilder::write_into not found")
+        out["entry"] = em.blk(parse_body(body))
+        if "loop" not in out:
+            raise XlateError("write_into: no attribute loop found")
+        return out
+    if body is None:
+        raise XlateError(f"MessageBuilder::{which} not found")
+    return em.blk(parse_body(body))
+
+
 def validate_integrity(src):
     """Message::validate_integrity: selection of the algorithm from the exposed attributes, then the location
     scan (`while !data.is_empty()`) with the HMAC input rewrite.  debug_assert!s become explicit panics."""
@@ -983,6 +1038,17 @@ def items(src):
     yield ("FnBuilder", "hasAttribute", "(b : Builder) (atype : Nat) : Bool", lambda: builder_fn(src, "has_attribute"), None)
     yield ("FnBuilder", "hasAnyAttribute", "(b : Builder) (atypes : List Nat) : Option Nat", lambda: builder_fn(src, "has_any_attribute"), None)
     yield ("FnBuilder", "addFingerprint", "(addFingerprintUnchecked : Builder → Builder) (b : Builder) : Except WErr Builder", lambda: builder_fn(src, "add_fingerprint"), None)
+    yield ("FnWrite", "byteLen", "(b : Builder) : Nat", lambda: builder_write(src, "byte_len"), None)
+    bw = {}
+    def bw_part(k):
+        def f():
+            if not bw:
+                bw.update(builder_write(src, "write_into"))
+            return bw[k]
+        return f
+    yield ("FnWrite", "writeAttrsLoop", "(__attrs : List BAttr) (dest : Bytes) (offset : Nat) : Except WErr (Nat × Bytes)", bw_part("loop"), None)
+    yield ("FnWrite", "writeInto", "(b : Builder) (dest : Bytes) : Except WErr (Nat × Bytes)", bw_part("entry"), None)
+    yield ("FnWrite", "build", "(b : Builder) : Bytes", lambda: builder_write(src, "build"), None)
     yield ("FnBuilder", "addMessageIntegrity", "(addMessageIntegrityUnchecked : Builder → Builder) (b : Builder) (algorithm : Algo) : Except WErr Builder", lambda: builder_fn(src, "add_message_integrity"), None)
     yield ("FnBuilder", "integrityBytesFromMessage", "(b : Builder) (extra_len : Nat) : Bytes", lambda: builder_fn(src, "integrity_bytes_from_message"), None)
     yield ("FnBuilder", "addMessageIntegrityUnchecked", "(H : Hashes) (c : Creds) (b : Builder) (algorithm : Algo) : Builder", lambda: builder_fn(src, "add_message_integrity_unchecked"), None)
@@ -1011,6 +1077,9 @@ HEADERS = {
     "FnTyped": ["import StunVerif.Attr.Typed", "import StunVerif.Attr.Bound", "import StunVerif.Gen.FnAttr", "import StunVerif.Gen.Attr", "import StunVerif.Gen.Xor",
                 "namespace StunVerif.Gen", "open StunVerif", "", "/-- `PasswordAlgorithmValue::len` (checked to be the constant 0 in the source) -/", "def pwAlgoValueLen : Nat := 0", "",
                 "/-- `slice::chunks_exact(2)` -/", "def chunksExact2 : Bytes → List Bytes", "  | a :: b :: rest => [a, b] :: chunksExact2 rest", "  | _ => []", ""],
+    "FnWrite": ["import StunVerif.Msg.Builder", "import StunVerif.Gen.MsgType", "namespace StunVerif.Gen", "open StunVerif", "",
+                "/-- `dest[off..off+src.len()].copy_from_slice(src)` / `BigEndian::write_*(&mut dest[off..off+n], v)` on a destination that is long enough -/",
+                "def put (dest : Bytes) (off : Nat) (src : Bytes) : Bytes := dest.take off ++ src ++ dest.drop (off + src.length)", ""],
     "FnMsg": ["import StunVerif.Msg.IterState", "import StunVerif.Gen.MsgType", "namespace StunVerif.Gen", "open StunVerif", ""],
     "FnBuilder": ["import StunVerif.Msg.Builder", "namespace StunVerif.Gen", "open StunVerif", ""],
     "FnIntegrity": ["import StunVerif.Msg.ValidateLeaves", "import StunVerif.Gen.MsgType", "namespace StunVerif.Gen", "open StunVerif", ""],
